@@ -1,1 +1,146 @@
-/- C03 — property theorems (to be written) -/
+/-
+  C03 — point access behaves like a map from points to values.
+  Property theorems only; helpers in FtProofs/Lemmas/PointLemmas.lean.
+-/
+import FtProofs.Lemmas.PointLemmas
+set_option linter.unusedSectionVars false
+set_option linter.unusedSimpArgs false
+namespace Ft
+open StrictTotal
+
+section
+variable {κ ν : Type} [LT κ] [DecidableRel (α := κ) (· < ·)] [DecidableEq κ] [StrictTotal κ]
+
+/-- reading a full point (position search as the code does it) returns the abstract value … -/
+theorem getPayload_val (dflt : ν) (d : Nat) (t : Tree κ ν d) (h : WF d t) (p : List κ) :
+    getLeaf dflt d t p = val dflt d t p := getLeaf_eq_val dflt d t h p
+
+/-- … which is the value stored in the content, or the default if the point is absent or
+    holds an explicit default -/
+theorem getPayload_lookup [DecidableEq ν] (dflt : ν) (d : Nat) (t : Tree κ ν d) (h : WF d t)
+    (p : List κ) (hp : p.length = d) :
+    getLeaf dflt d t p = (clookup (content dflt d t) p).getD dflt := by
+  rw [getLeaf_eq_val dflt d t h p, val_eq_content dflt d t h p hp]
+
+/-- reading a prefix `q` of a point returns the sub-tree holding exactly the values under `q` -/
+theorem getPayload_prefix (dflt : ν) : ∀ (k d : Nat) (t : Tree κ ν (d + k)), WF (d + k) t →
+    ∀ (q : List κ), q.length = k → ∀ r,
+    val dflt d (getAt dflt k d t q) r = val dflt (d + k) t (q ++ r)
+  | 0, _, _, _, [], _, _ => rfl
+  | _ + 1, _, _, _, [], hq, _ => by cases hq
+  | k + 1, d, (t : List (κ × Tree κ ν (d + k))), h, c :: cs, hq, r => by
+    have hq' : cs.length = k := by simpa using hq
+    show val dflt d (getAt dflt (k + 1) d t (c :: cs)) r = val dflt ((d + k) + 1) t (c :: (cs ++ r))
+    simp only [getAt, val]
+    rw [posLookup_eq_lookup h.sorted]
+    cases hl : lookup (show List (κ × Tree κ ν (d + k)) from t) c with
+    | some s =>
+      exact getPayload_prefix dflt k d s (h.sub _ (lookup_mem hl)) cs hq' r
+    | none =>
+      show val dflt d (getAt dflt k d (defaultTree dflt (d + k)) cs) r = dflt
+      rw [getPayload_prefix dflt k d _ (wf_defaultTree dflt (d + k)) cs hq' r, val_defaultTree]
+
+/-- obtaining a reference creates the missing path, keeps the tree well-formed and disturbs
+    no point -/
+theorem getPayloadRef_spec (dflt : ν) (d : Nat) (t : Tree κ ν d) (h : WF d t) (p : List κ)
+    (hp : p.length = d) :
+    WF d (refAt dflt d t p) ∧ PathExists d (refAt dflt d t p) p ∧
+    ∀ q, val dflt d (refAt dflt d t p) q = val dflt d t q :=
+  ⟨refAt_wf dflt d t h p, refAt_path dflt d t h p hp, refAt_val dflt d t h p⟩
+
+/-- assignment through the reference is visible to every later read and to no other point -/
+theorem write_read (dflt : ν) (d : Nat) (t : Tree κ ν d) (h : WF d t) (p q : List κ)
+    (hp : p.length = d) (hq : q.length = d) (v : ν) :
+    getLeaf dflt d (updateAt (fun _ => v) d (refAt dflt d t p) p) q =
+      if q = p then v else getLeaf dflt d t q := by
+  rw [getLeaf_eq_val _ _ _ (updateAt_wf _ d _ (refAt_wf dflt d t h p) p), getLeaf_eq_val _ _ _ h,
+    updateAt_val dflt _ d _ p q (refAt_path dflt d t h p hp) hp hq, refAt_val dflt d t h p]
+
+/-- in-place update through the reference -/
+theorem update_read (dflt : ν) (g : ν → ν) (d : Nat) (t : Tree κ ν d) (h : WF d t) (p q : List κ)
+    (hp : p.length = d) (hq : q.length = d) :
+    getLeaf dflt d (updateAt g d (refAt dflt d t p) p) q =
+      if q = p then g (getLeaf dflt d t p) else getLeaf dflt d t q := by
+  rw [getLeaf_eq_val _ _ _ (updateAt_wf _ d _ (refAt_wf dflt d t h p) p), getLeaf_eq_val _ _ _ h,
+    getLeaf_eq_val _ _ _ h,
+    updateAt_val dflt _ d _ p q (refAt_path dflt d t h p hp) hp hq, refAt_val dflt d t h p,
+    refAt_val dflt d t h p]
+
+/-- a legal search-start shortcut never changes the position found (hence no accessor's answer) -/
+theorem startpos_irrelevant {π : Type} (f : Fib κ π) (hs : Sorted f) (sp : Nat) (c : κ)
+    (hl : legalStart f sp c = true) : coord2posFrom f sp c = lowerBound f c :=
+  coord2posFrom_eq hs sp c hl
+
+/-- position lookup finds exactly the stored coordinate's index -/
+theorem getPosition_spec {π : Type} (f : Fib κ π) (hs : Sorted f) (c : κ) :
+    (getPosition f c).isSome = (lookup f c).isSome ∧
+    ∀ i, getPosition f c = some i → ∃ e, f[i]? = some e ∧ e.1 = c :=
+  ⟨getPosition_isSome_iff hs c, fun i h => (getPosition_eq c i h).2⟩
+
+/-! ### refinement: any interleaving of reads, reference creation, assignment and in-place
+update returns what the abstract map machine returns -/
+
+/-- the tree represents the map `m` on full points -/
+def Abs (dflt : ν) (d : Nat) (t : Tree κ ν d) (m : List κ → ν) : Prop :=
+  ∀ q, q.length = d → val dflt d t q = m q
+
+theorem step_refines [Add ν] (dflt : ν) (d : Nat) (t : Tree κ ν d) (m : List κ → ν)
+    (op : PointOp κ ν) (h : WF d t) (ha : Abs dflt d t m) (hp : op.point.length = d) :
+    WF d (pointStep dflt d t op).1 ∧ Abs dflt d (pointStep dflt d t op).1 (specStep m op).1 ∧
+    (pointStep dflt d t op).2 = (specStep m op).2 := by
+  cases op with
+  | get p =>
+    exact ⟨h, ha, by show getLeaf dflt d t p = m p; rw [getLeaf_eq_val _ _ _ h]; exact ha p hp⟩
+  | ref p =>
+    refine ⟨refAt_wf dflt d t h p, fun q hq => ?_, ?_⟩
+    · show val dflt d (refAt dflt d t p) q = m q
+      rw [refAt_val dflt d t h p]; exact ha q hq
+    · show getLeaf dflt d (refAt dflt d t p) p = m p
+      rw [getLeaf_eq_val _ _ _ (refAt_wf dflt d t h p), refAt_val dflt d t h p]; exact ha p hp
+  | assign p v =>
+    have hw := updateAt_wf (fun _ => v) d _ (refAt_wf dflt d t h p) p
+    have hv : ∀ q, q.length = d → val dflt d (updateAt (fun _ => v) d (refAt dflt d t p) p) q =
+        if q = p then v else m q := by
+      intro q hq
+      rw [updateAt_val dflt _ d _ p q (refAt_path dflt d t h p hp) hp hq, refAt_val dflt d t h p]
+      by_cases hqp : q = p <;> simp [hqp, ha q hq]
+    refine ⟨hw, hv, ?_⟩
+    show getLeaf dflt d _ p = v
+    rw [getLeaf_eq_val _ _ _ hw, hv p hp]; simp
+  | iadd p v =>
+    have hw := updateAt_wf (fun x => x + v) d _ (refAt_wf dflt d t h p) p
+    have hv : ∀ q, q.length = d → val dflt d (updateAt (fun x => x + v) d (refAt dflt d t p) p) q =
+        if q = p then m p + v else m q := by
+      intro q hq
+      rw [updateAt_val dflt _ d _ p q (refAt_path dflt d t h p hp) hp hq, refAt_val dflt d t h p,
+        refAt_val dflt d t h p, ha p hp]
+      by_cases hqp : q = p <;> simp [hqp, ha q hq]
+    refine ⟨hw, hv, ?_⟩
+    show getLeaf dflt d _ p = m p + v
+    rw [getLeaf_eq_val _ _ _ hw, hv p hp]; simp
+
+/-- **C03, histories.** -/
+theorem run_refines_map [Add ν] (dflt : ν) (d : Nat) : ∀ (ops : List (PointOp κ ν)) (t : Tree κ ν d)
+    (m : List κ → ν), WF d t → Abs dflt d t m → (∀ op ∈ ops, op.point.length = d) →
+    (pointRun dflt d t ops).2 = specRun m ops ∧ WF d (pointRun dflt d t ops).1
+  | [], _, _, h, _, _ => ⟨rfl, h⟩
+  | op :: ops, t, m, h, ha, hp => by
+    obtain ⟨h1, h2, h3⟩ := step_refines dflt d t m op h ha (hp op (List.mem_cons_self ..))
+    obtain ⟨r1, r2⟩ := run_refines_map dflt d ops _ _ h1 h2 (fun o ho => hp o (List.mem_cons_of_mem _ ho))
+    refine ⟨?_, r2⟩
+    show (pointStep dflt d t op).2 :: (pointRun dflt d (pointStep dflt d t op).1 ops).2 =
+      (specStep m op).2 :: specRun (specStep m op).1 ops
+    rw [h3, r1]
+
+end
+
+/-! ### non-vacuity -/
+section
+private def exT : Tree Int Int 2 := [(0, [(1, (5 : Int)), (2, (0 : Int))]), (3, []), (4, [(0, (7 : Int))])]
+example : WF 2 exT := (wfB_iff 2 exT).1 (by decide)
+example : Abs 0 2 exT (val 0 2 exT) := fun _ _ => rfl
+#guard getLeaf 0 2 exT [0, 1] == 5 && getLeaf 0 2 exT [0, 2] == 0 && getLeaf 0 2 exT [3, 1] == 0 && getLeaf 0 2 exT [9, 9] == 0
+#guard (pointRun 0 2 exT [.get [3, 1], .assign [3, 1] 4, .iadd [9, 0] 2, .get [3, 1], .get [9, 0], .ref [1, 1], .get [0, 1]]).2 == [0, 4, 2, 4, 2, 0, 5]
+#guard legalStart ([(0, 1), (2, 1), (5, 1)] : Fib Int Int) 1 4 && coord2posFrom ([(0, 1), (2, 1), (5, 1)] : Fib Int Int) 1 4 == 2
+end
+end Ft
